@@ -369,6 +369,8 @@ def builder_cfg(chk, name, maxcalls, gen, rich, maxdev=1):
         f.write("INVARIANT MCInv\nINVARIANT Emit\nCHECK_DEADLOCK FALSE\n")
         if not gen:
             f.write("VIEW View\n")
+        else:
+            f.write("PROPERTY AbsStep\n")       # refinement of the Apalache-proved counter abstraction (needs the full state, no VIEW)
     return p
 
 
@@ -516,3 +518,16 @@ def toy_ideal(chk, curve, progs, cfgname, what, name, fl=None, retries=2):
         else:
             chk.cov["lucky_accepts_explained"] = chk.cov.get("lucky_accepts_explained", 0) + 1
     return rej
+
+
+def apalache_inductive(chk, module, init="Init", indinit="IndInit", inv="IndInv", timeout=900):
+    """Unbounded safety of a small typed module: Init => Inv (length 0) and Inv /\\ Next => Inv' (length 1 from an arbitrary Inv-state)."""
+    for name, args in (("base", ["--init=" + init, "--inv=" + inv, "--length=0"]), ("step", ["--init=" + indinit, "--inv=" + inv, "--length=1"])):
+        out = chk.path("apalache_" + name)
+        r = subprocess.run(["timeout", str(timeout), "apalache-mc", "check"] + args + ["--out-dir=" + out, module], cwd=SPEC,
+                           stdout=subprocess.PIPE, stderr=subprocess.STDOUT, text=True)
+        shutil.rmtree(out, ignore_errors=True)
+        if "EXITCODE: OK" not in r.stdout:
+            log(r.stdout[-2000:])
+            raise ToolError("Apalache: inductive %s case of %s!%s failed" % (name, module, inv))
+    chk.cov["apalache_inductive_invariant"] = "%s!%s: Init => Inv and Inv /\\ Next => Inv' discharged (unbounded call sequences)" % (module, inv)
